@@ -5,6 +5,8 @@ import math
 
 import numpy as np
 
+from . import c18_own as OWN
+
 TOL = 1e-7
 
 
@@ -229,6 +231,50 @@ def check(case, obs):
         fails.append(("hermitian", "connection Laplacian is not Hermitian: L[%d,%d]=%r, L[%d,%d]=%r" % (i, j, complex(L[i, j]), j, i, complex(L[j, i]))))
     if "flat_diff" in obs and obs["flat_diff"] > 1e-10 * sc:
         fails.append(("flat", "with the flat connection the operator differs from the scalar Laplacian by %.3g" % obs["flat_diff"]))
+
+    # ---- the operator against the harness's OWN geometry (own cotangents, own bases and parallel transport on faces): the
+    #      weights the library computed, then the whole connection Laplacian
+    L_obs = L
+    try:
+        if case.get("cotan", True):
+            if elem == "faces" and "D" in obs:
+                sums = OWN.edge_cot_sums(V, F, obs["edges"])
+                for e, (sm, d) in enumerate(zip(sums, obs["D"])):
+                    want = 1e8 if abs(sm) < 1e-8 else 1.0 / sm
+                    if abs(abs(sm) - 1e-8) < 1e-12:
+                        continue
+                    okw = (abs(d - want) <= 1e-9 * abs(want)) or (abs(sm) >= 1e-8 and d != 0 and abs(1.0 / d - sm) <= 1e-11)
+                    if not okw:
+                        fails.append(("operator/edge-weight", "edge %d %s: the dual cotangent weight is %.9g, 1/(cot a + cot b) computed from the "
+                                                              "geometry is %.9g (cot a + cot b = %.6g)" % (e, tuple(obs["edges"][e]), d, want, sm)))
+                        break
+            if elem == "vertices" and "cots" in obs:
+                own = OWN.corner_cots(V, F)
+                for t in range(len(F)):
+                    for k in range(3):
+                        if abs(own[t][k] - obs["cots"][t][k]) > 1e-9 * (1 + abs(own[t][k])):
+                            fails.append(("operator/corner-cotangent", "face %d corner %d: cotangent %.9g, from the geometry %.9g"
+                                                                       % (t, k, obs["cots"][t][k], own[t][k])))
+                            break
+        if elem == "faces":
+            L_own = OWN.lap_faces(V, F, obs["edges"], obs["feat"], order, case.get("cotan", True))
+        else:
+            tr_ = {(a, b): complex(c_, s_) for a, b, c_, s_ in obs["transport"]}
+            L_own = OWN.lap_vertices(V, F, order, case.get("cotan", True), tr_)
+        if L_own.shape == L_obs.shape and L_own.size:
+            dlt = np.abs(L_own - L_obs)
+            # entries are sums of terms of size |w|: compare relative to the row/column scale
+            scl = np.maximum.outer(np.abs(L_own).max(axis=1), np.abs(L_own).max(axis=0)) + 1.0
+            if (dlt / scl).max() > 1e-8:
+                i, j = np.unravel_index(np.argmax(dlt / scl), dlt.shape)
+                fails.append(("operator/own-laplacian", "connection Laplacian entry (%d,%d) is %r, rebuilt from the geometry (own cotangents%s) it is %r"
+                              % (i, j, complex(L_obs[i, j]), ", own bases and transport" if elem == "faces" else "", complex(L_own[i, j]))))
+            L = L_own      # the harmonic-extension clause below is judged against the independently rebuilt operator
+            sc = max(1.0, float(np.abs(L).max()))
+        elif L_own.shape != L_obs.shape:
+            fails.append(("operator/own-laplacian", "connection Laplacian has shape %s, expected %s" % (L_obs.shape, L_own.shape)))
+    except (KeyError, ZeroDivisionError, FloatingPointError) as ex:
+        fails.append(("oracle-crash", "the operator could not be rebuilt from the geometry: %r" % ex))
 
     # ---- harmonic extension: the first solve answers L_II z = -L_IB z_B; without smoothing the field is its normalisation
     if has_feat and "solve" in obs and len(free) > 0:
